@@ -4,6 +4,7 @@ import (
 	"context"
 	"fmt"
 	"os"
+	"path/filepath"
 	"reflect"
 	"sort"
 	"strings"
@@ -17,6 +18,7 @@ import (
 	"github.com/Flowpack/prunner"
 	"github.com/Flowpack/prunner/definition"
 	"github.com/Flowpack/prunner/store"
+	"github.com/Flowpack/prunner/taskctl"
 
 	"verif/internal/payload"
 )
@@ -114,6 +116,7 @@ type Machine struct {
 	pipeGen     map[string]int
 	pipeGenHist map[string][]genChange
 	verdictDone map[uuid.UUID]bool
+	pre         []*PreJob
 	ended       bool
 	detail      string // non-deterministic detail for the log of the next failure
 	reloaded    bool
@@ -190,17 +193,40 @@ func NewMachine(t *rapid.T, cfg *Cfg) *Machine {
 		}
 		mem.Inner, mem.Dir = inner, dir
 	}
-	return NewMachineWithDefs(t, cfg, defs, mem)
+	var out taskctl.OutputStore = nopOutputStore{}
+	logDir := ""
+	var pre []*PreJob
+	if cfg.Logs && mem.Dir != "" {
+		logDir = filepath.Join(mem.Dir, "logs")
+		fo, err := taskctl.NewOutputStore(logDir)
+		if err != nil {
+			t.Fatalf("output store: %v", err)
+		}
+		out = fo
+	}
+	if cfg.Preload && mem.Inner != nil {
+		pre = genPreload(t, defs, mem.Inner, logDir)
+	}
+	m := newMachine(t, cfg, defs, mem, out, logDir, pre)
+	return m
 }
 
 func NewMachineWithDefs(t *rapid.T, cfg *Cfg, defs *definition.PipelinesDef, mem *MemStore) *Machine {
-	w, err := NewWorld(cfg, defs, mem, nopOutputStore{})
+	return newMachine(t, cfg, defs, mem, nopOutputStore{}, "", nil)
+}
+
+func newMachine(t *rapid.T, cfg *Cfg, defs *definition.PipelinesDef, mem *MemStore, out taskctl.OutputStore, logDir string, pre []*PreJob) *Machine {
+	w, err := NewWorld(cfg, defs, mem, out)
 	if err != nil {
 		t.Fatalf("NewPipelineRunner: %v", err)
 	}
-	m := &Machine{t: t, w: w, cfg: cfg, mem: mem, mon: newLogMon(), pipeGen: map[string]int{}, pipeGenHist: map[string][]genChange{}, verdictDone: map[uuid.UUID]bool{}}
+	w.LogDir = logDir
+	m := &Machine{pre: pre, t: t, w: w, cfg: cfg, mem: mem, mon: newLogMon(), pipeGen: map[string]int{}, pipeGenHist: map[string][]genChange{}, verdictDone: map[uuid.UUID]bool{}}
 	m.defHist = []defGen{{0, defs}}
 	w.tracef("defs: %s", DescribeDefs(defs))
+	for i, p := range pre {
+		w.tracef("preloaded%d: pipeline=%s state=%s age=%s", i, p.Pipeline, p.State, time.Since(p.Created).Round(time.Minute))
+	}
 	m.settle("init")
 	return m
 }
